@@ -29,7 +29,7 @@ Produce TWO different changes (different mechanisms / different places if at all
 
 For each change K in (1, 2) deliver in `{wt}`:
   - `patchK.diff`: the change as `git diff` output (relative to the worktree HEAD, only the library edit);
-  - `demoK.py`: a small self-contained demonstration program (simulation with amaranth's simulator / transactron.testing helpers, or an elaboration) that exits with status 0 on the ORIGINAL code and with a non-zero status (or an assertion failure) when patchK is applied.  Verify both directions yourself (`git stash` / `git apply`).
+  - `demoK.py`: a small self-contained demonstration program (simulation with amaranth's simulator / transactron.testing helpers, or an elaboration) that exits with status 0 on the ORIGINAL code and with a non-zero status (or an assertion failure) when patchK is applied.  Verify both directions yourself with `git apply patchK.diff` / `git apply -R patchK.diff` (NEVER use `git stash`: the stash is shared between worktrees and other agents work in parallel).
   - leave the worktree clean (no change applied) at the end, with the four files present (untracked).
 
 Useful facts: simulate with `from amaranth.sim import Simulator`; wrap a design in `transactron.core.context.TransactronContextElaboratable(dut)`; testbench helpers are in `transactron/testing` (see how tests under `test/` build circuits, e.g. `SimpleTestCircuit`, `TestbenchIO`, `AdapterTrans`).  Construct things that need the dependency manager inside `with DependencyContext(DependencyManager()):` when elaborating by hand.  A design needs at least one `m.d.sync` statement for `sim.add_clock` to work.
